@@ -140,6 +140,13 @@ CONTEXTS = {
     "argument-of-a-partial-instance-of-one": (lambda d, e: X.nta(d, [T(params="const int p, const int p2")],
                                                                     "Q(const int c, const int c2) = T(c, c2); R(const int r) = Q(r, 1); P = R(%s); system P;" % e), True),
     "argument-inside-a-partial-instance": (lambda d, e: X.nta(d, [T(params="const int p, const int p2")], "Q(const int c) = T(c, %s); P = Q(1); system P;" % e), True),
+    # initialisers and sizes of function-local declarations, also in blocks that consist of declarations only (no statement follows)
+    "function-local-initialiser": (lambda d, e: X.nta(d + "void lf() { int u = %s; }" % e, [T(assign="lf()")], SYS), False),
+    "function-local-initialiser-in-declaration-only-block": (lambda d, e: X.nta(d + "void lf() { { int u0 = k; int u = %s; } }" % e, [T(assign="lf()")], SYS), False),
+    "function-local-initialiser-in-declaration-only-loop-body": (lambda d, e: X.nta(d + "void lf() { for (j : int[0,1]) { int u = %s; } }" % e, [T(assign="lf()")], SYS), False),
+    "function-local-initialiser-in-declaration-only-branch": (lambda d, e: X.nta(d + "void lf() { if (k == 1) { } else { const int u = %s; } }" % e, [T(assign="lf()")], SYS), False),
+    "function-local-array-size-in-declaration-only-block": (lambda d, e: X.nta(d + "void lf() { { { int u[%s + 1]; } } }" % e, [T(assign="lf()")], SYS), True),
+    "template-function-local-initialiser-in-declaration-only-block": (lambda d, e: X.nta(d, [T(decl="void lf() { while (k < 0) { int u = %s; } }" % e, assign="lf()")], SYS), False),
     "forall-body": (lambda d, e: X.nta(d, [T(guard="forall (i : int[0,1]) %s + i >= 0" % e)], SYS), False),
     "exists-body": (lambda d, e: X.nta(d, [T(guard="exists (i : int[0,1]) %s + i >= 0" % e)], SYS), False),
     "sum-body": (lambda d, e: X.nta(d, [T(guard="(sum (i : int[0,1]) %s) >= 0" % e)], SYS), False),
